@@ -7,7 +7,7 @@ HOOK_COMMITS = ["5b0156d"]
 # id -> (level text, level note, technique, design_ref)
 CLAIMED = {
     "C01": (
-        "Model-based stateful property testing: generated configurations (asset kinds, decimals, fee triples) and operation histories by four users are executed against the real pair created through the real factory under cw-multi-test; after every step an exact (1024-bit) invariant check runs: Pool query succeeds, balance >= reserve + owed fees, geometric mean per LP share not lower, withdrawals <= pro-rata, deposit-then-withdraw <= deposited (pools with LPs), minimum-liquidity stake locked, rejected steps leave the whole world snapshot unchanged. Exploration: tens of thousands of histories per quick run, shrunk to minimal operation sequences on failure.",
+        "Model-based stateful property testing: generated configurations (asset kinds, decimals, fee triples) and operation histories by four users are executed against the real pair created through the real factory under cw-multi-test; after every step an exact (1024-bit) invariant check runs: Pool query succeeds, balance >= reserve + owed fees, geometric mean per LP share not lower, withdrawals <= pro-rata, deposit-then-withdraw <= deposited (pools with LPs), minimum-liquidity stake locked, rejected steps leave the whole world snapshot unchanged. Exploration: tens of thousands of histories per quick run, shrunk to minimal operation sequences on failure. A directed operation sizes a swap by bisection over the Simulation query so that the pending protocol fee lands exactly on the collection threshold (999/1000/1001) and is followed by a separately judged collection; deposits list the assets in either order.",
         "Trusts cw-multi-test 0.16.5 (bank, wasm keeper, atomic revert) as the chain and the repository's cw20. Token-factory LP builds are not exercised. A contract panic counts as a rejected transaction.",
         "stateful / model-based property testing (proptest histories + per-step invariant oracle)",
         "DESIGN.md §4 C01",
@@ -61,7 +61,7 @@ CLAIMED = {
         "DESIGN.md §4 C20",
     ),
     "C10": (
-        "Stateful property testing with injected faults on the full hub (3 pairs incl. a cw20 leg, 3 vaults, pool router with generated 1- and 2-hop routes, collector, distributor, lair): generated histories create fee states (zero, <= 1000, above) through real swaps and router flash loans, change the take rate over {inactive, 0, 1e-18, 0.1, ~1, random} with/without a DAO address, add/remove routes, disable swaps on a pair (simulation passes, execution fails), de-register or drain pairs, donate to the collector, call ForwardFees from non-distributors, and create epochs. Each NewEpoch is judged against a conservation oracle: failure => whole world snapshot unchanged; success => pending fees of registered pairs/vaults collected (sub-threshold entries kept), every non-distribution asset in the collector either untouched or fully swapped, router empty, DAO delta == floor(rate * forwarded balance) iff active and recorded in TakeRateHistory, distributor inflow == new epoch total - rolled-over remainder, collector's distribution-asset balance 0.",
+        "Stateful property testing with injected faults on the full hub (3 pairs incl. a cw20 leg, 3 vaults, pool router with generated 1- and 2-hop routes, collector, distributor, lair): generated histories create fee states (zero, <= 1000, above) through real swaps and router flash loans, change the take rate over {inactive, 0, 1e-18, 0.1, ~1, random} with/without a DAO address, add/remove routes, disable swaps on a pair (simulation passes, execution fails), de-register or drain pairs, donate to the collector, call ForwardFees from non-distributors, and create epochs. Each NewEpoch is judged against a conservation oracle: failure => whole world snapshot unchanged; success => pending fees of registered pairs/vaults collected (sub-threshold entries kept), every non-distribution asset in the collector either untouched or fully swapped, router empty, DAO delta == floor(rate * forwarded balance) iff active and recorded in TakeRateHistory, distributor inflow == new epoch total - rolled-over remainder, collector's distribution-asset balance 0. A successful NewEpoch must not leave behind an asset that is above the aggregation threshold, listed by a registered pool or vault, routed and simulable (the swap step must then have been attempted, and a failed step undoes everything).",
         "Protocol fees charged by the aggregation's own swaps are read from swap events (claims validated by C07). Trios are not collected by ForwardFees and are not asserted. cw-multi-test as the chain.",
         "stateful property testing with fault injection and a conservation oracle",
         "DESIGN.md §4 C10",
@@ -73,7 +73,7 @@ CLAIMED = {
         "DESIGN.md §4 C11",
     ),
     "C12": (
-        "Model-ledger stateful testing of the real incentive contract (created through the real incentive factory; cw20 or native LP; reward assets native and cw20; creation fee in another native denom, another cw20 or the reward asset itself): generated histories of flow openings with exact / fee-only / short / over-paid / missing funds and default or explicit epochs (incl. > 180), expansions by creator or others, closes by creator / factory owner / stranger, positions, snapshots, epoch advances and claims. The reference ledger outstanding[flow] is built only from transfers the harness observes and must equal funded - claimed read from the contract's raw storage after every step; the fee must reach the collector; balances cover the sum of outstanding; closing pays exactly outstanding to the creator and is refused to strangers.",
+        "Model-ledger stateful testing of the real incentive contract (created through the real incentive factory; cw20 or native LP; reward assets native and cw20; creation fee in another native denom, another cw20 or the reward asset itself): generated histories of flow openings with exact / fee-only / short / over-paid / missing funds and default or explicit epochs (incl. > 180), expansions by creator or others, closes by creator / factory owner / stranger, positions, snapshots, epoch advances and claims. The reference ledger outstanding[flow] is built only from transfers the harness observes and must equal funded - claimed read from the contract's raw storage after every step; the fee must reach the collector; balances cover the sum of outstanding; closing pays exactly outstanding to the creator and is refused to strangers. Flows may start in the past; new epochs come with or without a snapshot; one case in ten starts with the directed 'gap in the emission record' shape.",
         "Flows are read from raw storage because the Flow/Flows queries trim histories to 100 epochs. Epoch clock = the repository's fee-distributor mock. Reward assets distinct from the LP asset here (LP-asset flows are in C11).",
         "stateful property testing with an explicit reference ledger built from observed transfers",
         "DESIGN.md §4 C12",
@@ -91,13 +91,13 @@ CLAIMED = {
         "DESIGN.md §4 C14",
     ),
     "C15": (
-        "Four searches: (a) assert_max_spread (package) and (b) both deposit slippage assertions (pair constant-product + stableswap, trio; through the hook) with generated inputs placed on, one and two units around, and far from every threshold, for max_spread / tolerance in {None, 0, 1% -/+ 1e-18, 50% -/+ 1e-18, 1, >1, random}, judged by an exact-rational three-way oracle (forced accept / forced reject / either inside the 18-decimal granularity band); (c) live constant-product and stableswap pairs: every limited swap that succeeds must satisfy the realised bound computed from its actual amounts, and a limited swap that is rejected is re-executed without the limit in the same state - if that lands strictly inside the bound it is a violation; (d) router routes (1..3 hops, receivers with pre-existing balances) with minimum_receive = simulated amount + {-3..3, far}: success => receiver delta >= minimum, delivery >= minimum => not rejected (checked by re-executing without the minimum).",
+        "Four searches: (a) assert_max_spread (package) and (b) both deposit slippage assertions (pair constant-product + stableswap, trio; through the hook) with generated inputs placed on, one and two units around, and far from every threshold, for max_spread / tolerance in {None, 0, 1% -/+ 1e-18, 50% -/+ 1e-18, 1, >1, random}, judged by an exact-rational three-way oracle (forced accept / forced reject / either inside the 18-decimal granularity band); (c) live constant-product and stableswap pairs: every limited swap that succeeds must satisfy the realised bound computed from its actual amounts, and a limited swap that is rejected is re-executed without the limit in the same state - if that lands strictly inside the bound it is a violation; (d) router routes (1..3 hops, receivers with pre-existing balances) with minimum_receive = simulated amount + {-3..3, far}: success => receiver delta >= minimum, delivery >= minimum => not rejected (checked by re-executing without the minimum). (e) live deposits into constant-product pairs with the first asset's amount placed on / around the exact threshold of the ratio test and the assets listed in the pool's or the opposite order, judged by the same three-way reference from the reported reserves.",
         "Band = Decimal floors at 18 places; belief-price rule judged only where offer/p and 1/p fit the contract's types. Package-level mutations are visible because the harness patches white-whale-std to /repo/packages.",
         "property-based testing with a three-way exact-rational oracle on dense boundary inputs + differential live checks",
         "DESIGN.md §4 C15",
     ),
     "C16": (
-        "Exhaustive matrix enumeration with random payloads: a hand-written table classifies every ExecuteMsg variant of 14 contracts (verified at start-up against the variant names derived from the message schemas, so a new variant cannot be silently missing); every privileged or internal variant x ten caller roles (configured owner, hub owner account, prospective new owner, user, sibling contract, the contract itself, pool factory, vault factory, fee distributor, a registered vault) x {before, after an ownership transfer} is executed against a freshly built full hub as the regression corpus (760 combinations), and random payload details are drawn on top. Unauthorised caller => rejected and full world snapshot (all storage + all balances) unchanged; authorised caller with the canonical payload => accepted; after a transfer the previous owner loses and the new owner gains the rights.",
+        "Exhaustive matrix enumeration with random payloads: a hand-written table classifies every ExecuteMsg variant of 14 contracts (verified at start-up against the variant names derived from the message schemas, so a new variant cannot be silently missing); every privileged or internal variant x ten caller roles (configured owner, hub owner account, prospective new owner, user, sibling contract, the contract itself, pool factory, vault factory, fee distributor, a registered vault) x {before, after an ownership transfer} is executed against a freshly built full hub as the regression corpus (760 combinations), and random payload details are drawn on top. Unauthorised caller => rejected and full world snapshot (all storage + all balances) unchanged; authorised caller with the canonical payload => accepted; after a transfer the previous owner loses and the new owner gains the rights. A second search runs flash loans whose borrower contract forges the vault's internal Callback(AfterTrade) from inside its own (possibly nested) loan with generated arguments; the borrower's reply handler reports the vault's verdict, which must be 'rejected'. Payloads are caller-aware (NextLoan source_vault in {vault, caller, other} x asset in {registered, unregistered}).",
         "cw20 token and the test-only distributor mock are outside the table. Router route management is judged with a wasm admin configured. AssertMinimumReceive is judged for effect-freeness. Migrations: only rejection of unauthorised callers.",
         "fault/role enumeration (exhaustive matrix) + property-based payloads, snapshot-diff oracle",
         "DESIGN.md §4 C16",
